@@ -50,22 +50,22 @@ def buildCon : Con → Option Con
   | .or a b => do let a ← buildCon a; let b ← buildCon b; pure (.or a b)
   | .not a => do let a ← buildCon a; pure (.not a)
 
-def showVar (i : Nat) : String := s!"VarId({i})"
+def lwShowVar (i : Nat) : String := s!"VarId({i})"
 def showIntList (l : List Int) : String := "[" ++ ", ".intercalate (l.map toString) ++ "]"
-def showVarList (l : List Nat) : String := "[" ++ ", ".intercalate (l.map showVar) ++ "]"
+def showVarList (l : List Nat) : String := "[" ++ ", ".intercalate (l.map lwShowVar) ++ "]"
 
 /-- Rust `Debug` rendering of the real propagator -/
 def showLP : LP → String
-  | .eqVV x y => s!"Eq \{ x: {showVar x}, y: {showVar y} }"
-  | .eqKV k y => s!"Eq \{ x: ValI({k}), y: {showVar y} }"
-  | .neVV x y => s!"NotEquals \{ x: {showVar x}, y: {showVar y} }"
-  | .leVV x y => s!"LessThanOrEquals \{ x: {showVar x}, y: {showVar y} }"
-  | .ltVV x y => s!"LessThanOrEquals \{ x: Next({showVar x}), y: {showVar y} }"
-  | .addVV x y s => s!"Add \{ x: {showVar x}, y: {showVar y}, s: {showVar s} }"
-  | .subVV x y s => s!"Add \{ x: {showVar x}, y: TimesPos(x: Opposite({showVar y}), scale: ValI(1)), s: {showVar s} }"
-  | .mulVV x y s => s!"Mul \{ x: {showVar x}, y: {showVar y}, s: {showVar s} }"
-  | .divVV x y s => s!"Div \{ x: {showVar x}, y: {showVar y}, s: {showVar s} }"
-  | .modVV x y s => s!"Modulo \{ x: {showVar x}, y: {showVar y}, s: {showVar s} }"
+  | .eqVV x y => s!"Eq \{ x: {lwShowVar x}, y: {lwShowVar y} }"
+  | .eqKV k y => s!"Eq \{ x: ValI({k}), y: {lwShowVar y} }"
+  | .neVV x y => s!"NotEquals \{ x: {lwShowVar x}, y: {lwShowVar y} }"
+  | .leVV x y => s!"LessThanOrEquals \{ x: {lwShowVar x}, y: {lwShowVar y} }"
+  | .ltVV x y => s!"LessThanOrEquals \{ x: Next({lwShowVar x}), y: {lwShowVar y} }"
+  | .addVV x y s => s!"Add \{ x: {lwShowVar x}, y: {lwShowVar y}, s: {lwShowVar s} }"
+  | .subVV x y s => s!"Add \{ x: {lwShowVar x}, y: TimesPos(x: Opposite({lwShowVar y}), scale: ValI(1)), s: {lwShowVar s} }"
+  | .mulVV x y s => s!"Mul \{ x: {lwShowVar x}, y: {lwShowVar y}, s: {lwShowVar s} }"
+  | .divVV x y s => s!"Div \{ x: {lwShowVar x}, y: {lwShowVar y}, s: {lwShowVar s} }"
+  | .modVV x y s => s!"Modulo \{ x: {lwShowVar x}, y: {lwShowVar y}, s: {lwShowVar s} }"
   | .linEq cs xs c => s!"IntLinEq \{ coefficients: {showIntList cs}, variables: {showVarList xs}, constant: {c} }"
   | .linLe cs xs c => s!"IntLinLe \{ coefficients: {showIntList cs}, variables: {showVarList xs}, constant: {c} }"
   | .linNe cs xs c => s!"IntLinNe \{ coefficients: {showIntList cs}, variables: {showVarList xs}, constant: {c} }"
